@@ -113,7 +113,18 @@ pub fn paragraph(rng: &mut Rng) -> String {
     s
 }
 
+thread_local! {
+    /// Set per run: now and then a document is large (tens of thousands of characters).
+    pub static BIG_DOCS: std::cell::Cell<bool> = const { std::cell::Cell::new(false) };
+}
+
 pub fn paragraphs(rng: &mut Rng) -> Vec<String> {
+    if BIG_DOCS.with(|b| b.get()) && rng.chance(1, 4) {
+        // a long file: the same few paragraphs over and over (cheap for the clause cache,
+        // large for everything that is proportional to the text)
+        let base: Vec<String> = (0..4).map(|_| paragraph(rng)).collect();
+        return (0..rng.range(120, 260)).map(|i| base[i % base.len()].clone()).collect();
+    }
     let n = rng.range(1, 3);
     (0..n).map(|_| paragraph(rng)).collect()
 }
@@ -229,6 +240,18 @@ pub fn wrap(lang: &str, paras: &[String], rng: &mut Rng) -> String {
             }
         }
         "html" => {
+            // documents in the wild start with all kinds of document type declarations
+            match rng.below(4) {
+                0 => {
+                    out.push_str("<!DOCTYPE html>");
+                    out.push_str(nl);
+                }
+                1 => {
+                    out.push_str("<!DOCTYPE html PUBLIC \"-//W3C//DTD XHTML 1.0 Strict//EN\" \"http://www.w3.org/TR/xhtml1/DTD/xhtml1-strict.dtd\">");
+                    out.push_str(nl);
+                }
+                _ => {}
+            }
             out.push_str("<html><body>");
             out.push_str(nl);
             for p in paras {
